@@ -8,7 +8,7 @@ import (
 )
 
 // RootKinds lists the root classes RandomRoot can build.
-var RootKinds = []string{"played", "fresh", "in-check", "few-replies", "promotion", "near-fifty", "repetition-2", "repetition-3", "mate", "stalemate", "dense"}
+var RootKinds = []string{"played", "fresh", "in-check", "few-replies", "promotion", "near-fifty", "repetition-2", "repetition-3", "mate", "stalemate", "dense", "castle", "blocked-castle"}
 
 func stepsMoves(st []gen.Step) []ref.Move {
 	m := make([]ref.Move, len(st))
@@ -27,6 +27,58 @@ func RandomRoot(rng *rand.Rand, kind string) (Root, string) {
 			p := corpus[rng.IntN(len(corpus))]
 			p.Half %= 90
 			return NewRoot(p, nil), kind
+		case "blocked-castle":
+			// castling right present, the path squares next to the king empty, but castling is not
+			// available: the b-file square is occupied (long side) or a path square is attacked/occupied
+			var p ref.Pos
+			p.EP = -1
+			p.Full = 1 + rng.IntN(40)
+			p.White = rng.IntN(2) == 0
+			p.Sq[4], p.Sq[60] = ref.K, -ref.K
+			p.Sq[0], p.Sq[7], p.Sq[56], p.Sq[63] = ref.R, ref.R, -ref.R, -ref.R
+			p.Castle = ref.WK | ref.WQ | ref.BK | ref.BQ
+			for _, b := range []int{1, 57} {
+				if rng.IntN(4) != 0 {
+					v := int8(2 + rng.IntN(2))
+					if (b > 8) != (rng.IntN(4) == 0) {
+						v = -v
+					}
+					p.Sq[b] = v
+				}
+			}
+			for _, s := range []int{5, 6, 61, 62} {
+				if rng.IntN(3) == 0 {
+					v := int8(2 + rng.IntN(2))
+					if s > 8 {
+						v = -v
+					}
+					p.Sq[s] = v
+				}
+			}
+			for i := 0; i < 8; i++ {
+				if rng.IntN(3) != 0 {
+					p.Sq[8+i] = ref.P
+				}
+				if rng.IntN(3) != 0 {
+					p.Sq[48+i] = -ref.P
+				}
+			}
+			for i := rng.IntN(6); i > 0; i-- {
+				s := 16 + rng.IntN(32)
+				v := int8(2 + rng.IntN(4))
+				if rng.IntN(2) == 0 {
+					v = -v
+				}
+				p.Sq[s] = v
+			}
+			if p.Valid() && len(p.Legal()) > 0 {
+				return NewRoot(p.Normalised(), nil), kind
+			}
+		case "castle":
+			if p, ok := gen.Castle(rng); ok && len(p.Legal()) > 0 {
+				p.Half %= 90
+				return NewRoot(p, nil), kind
+			}
 		case "dense":
 			if p, ok := gen.Dense(rng); ok {
 				p.Half %= 90
